@@ -21,6 +21,8 @@ CONSTANTS
     Offset,         \* [Rec -> 0..]   offset of a recurring task
     TaskRaisesSets, \* set of subsets of K: candidates for "these tasks raise in process_task"
     TaskDefers,     \* [K -> F \cup {0}]: function a task hands to core.deferred when it fires
+    TaskDoes,       \* [K -> <<op, j, dt>>]: what a task does to ANOTHER task j when it fires: <<"none", 0, 0>>,
+                    \* <<"suspend", j, 0>> (a completion handler cancelling a timeout) or <<"at", j, dt>> (re-arming j for now + dt)
     F,              \* deferred function ids (positive integers)
     FnRaisesSets,   \* set of subsets of F: candidates for "these functions raise when called"
     FnDefers,       \* [F -> F \cup {0}]: function deferred by a function when it is called (acyclic)
@@ -123,6 +125,14 @@ Drain(st) ==
     IF st.stop \/ st.defq = <<>> THEN st
     ELSE Drain(DrainBatch([st EXCEPT !.defq = <<>>], st.defq, 1))
 
+\* what task k does to another task from inside its process_task (n: the time of the pass)
+Effect(st, k, n) ==
+    LET a == TaskDoes[k] IN
+    CASE a[1] = "suspend" -> [st EXCEPT !.q = Remove(@, a[2]), !.sched[a[2]] = IF InQ(st.q, a[2]) THEN FALSE ELSE @]
+      [] a[1] = "at"      -> [st EXCEPT !.q = Insert(Remove(@, a[2]), n + a[3], a[2]), !.sched[a[2]] = TRUE,
+                                        !.due[a[2]] = n + a[3], !.instAt[a[2]] = n]
+      [] OTHER            -> st
+
 \* while delta == 0.0: get_next_task; process_task; drain
 RECURSIVE Pass(_, _)
 Pass(st, n) ==
@@ -133,7 +143,8 @@ Pass(st, n) ==
              popped == [st EXCEPT !.q = rest, !.sched[k] = FALSE, !.out = Append(@, <<k, st.q[1][1]>>)]
          IN  IF k \in TaskRaises
              THEN [popped EXCEPT !.stop = TRUE]               \* exception leaves run_once
-             ELSE LET d  == DeferIn(popped, TaskDefers[k])
+             ELSE LET d0 == DeferIn(popped, TaskDefers[k])
+                      d  == Effect(d0, k, n)
                       r  == IF k \in Rec
                             THEN LET t == NextSlot(n, Interval[k], Offset[k]) IN
                                  [d EXCEPT !.q = Insert(@, t, k), !.sched[k] = TRUE, !.due[k] = t, !.instAt[k] = n]
